@@ -285,6 +285,15 @@ namespace
             const std::string adjacent_class = "retarget within one cycle of a tick of the old or new target: the delta seen through the reference is not the old->new difference";
             const std::string stale_class = "retarget delta repeats an element the old target removed in its last tick";
             const std::string nested_class = "reference passed through a nested graph: the retarget delta does not remove the old target's elements";
+            std::string kind;
+            // sub-class of the adjacent-tick finding: program, shape, what is wrong with the delta, and which target ticked when
+            auto sub = [&](const std::string &what) {
+                std::string w = " [";
+                w += program; w += Sh::name; w += ": " + what + "; ";
+                w += std::string{"new target "} + (selected >= 0 && raw_tick[selected] ? "ticks now" : (selected >= 0 && last_raw_tick[selected] == c - 1 ? "ticked the cycle before" : "quiet"));
+                w += std::string{", old target "} + (old_target >= 0 && raw_tick[old_target] ? "ticks now" : (old_target >= 0 && last_raw_tick[old_target] == c - 1 ? "ticked the cycle before" : "quiet"));
+                return w + "]";
+            };
             for (int k = 0; k < (program == '2' ? 2 : 1); ++k)
             {
                 const bool evaluated = got[k].count(c) != 0;
@@ -330,7 +339,13 @@ namespace
                     {
                         out.violation = "cycle " + std::to_string(c) + ": a copy maintained from the deltas seen through the reference is " + show(after) + " but the value read is " + e.value + " (copy before: " + show(before) +
                                         ", delta added=" + e.added + " removed=" + e.removed + " modified=" + e.modified + ")";
-                        if (adjacent) out.sig_class = adjacent_class;
+                        {
+                            bool extra = false, missing = false;   // the copy kept something the value lacks (a removal was not reported) / lacks something (an addition was not reported)
+                            for (auto &i : after) if (!value_items.count(i)) extra = true;
+                            for (auto &i : value_items) if (!after.count(i)) missing = true;
+                            kind = extra && missing ? "removal and addition not reported" : extra ? "removal not reported" : "addition not reported";
+                        }
+                        if (adjacent) out.sig_class = adjacent_class + sub(kind);
                         else if (retarget && program == 'n') out.sig_class = nested_class;
                         continue;
                     }
@@ -338,14 +353,14 @@ namespace
                     for (auto &k2 : rem) if (!before_keys.count(k2))
                     {
                         out.violation = "cycle " + std::to_string(c) + ": delta reports " + k2 + " as removed but the consumer's view did not hold it (view before: " + show(before) + ", value now " + e.value + ")";
-                        if (adjacent) out.sig_class = adjacent_class;
+                        if (adjacent) out.sig_class = adjacent_class + sub("phantom removal");
                         else if (retarget) out.sig_class = stale_class;
                         break;
                     }
                     if (!out.violation) for (auto &k2 : add) if (before_keys.count(k2))
                     {
                         out.violation = "cycle " + std::to_string(c) + ": delta reports " + k2 + " as added but the consumer's view already held it (view before: " + show(before) + ")";
-                        if (adjacent) out.sig_class = adjacent_class;
+                        if (adjacent) out.sig_class = adjacent_class + sub("phantom addition");
                         else if (retarget && program == 'n') out.sig_class = nested_class;
                         break;
                     }
